@@ -474,9 +474,10 @@ def check(prop, tier):
         files, summary, gfile = drive(v, prop, tier, tag)
         lap("+ driver runs")
         # the files are rewritten by validate() only when a known finding is dropped from them
-        # short writes: BitcaskFault.tla models them for appends (FailAppendShort); the runs whose short write fell into
-        # a merge are judged at property level only and are filtered out of the copies given to TraceMech
-        mech_files = [x for x in files if "-short." not in os.path.basename(x)] + [short_append_runs(x) for x in files if "generated-short." in os.path.basename(x)]
+        # short writes: BitcaskFault.tla models them for appends (FailAppendShort); inside a merge the half that lands is
+        # invisible to the model and the failing retry is the FailMerge step (TraceMech); the large-entry set stays at
+        # property level
+        mech_files = [x for x in files if "-short." not in os.path.basename(x) or "generated-short." in os.path.basename(x)]
         if PROPS[prop]["mode"] == "fault" and tier == "quick":
             # the fault traces are large (every call of every behaviour failed twice): a seeded third of the shards
             mech_files = [f for n, f in enumerate(mech_files) if (n + seed()) % 3 == 0]
